@@ -68,6 +68,7 @@ CONTROLS = {
     "Zip": [("Zip.mc.cfg", {"Bug": '"no_fanout"'}, "ContractHolds"),
             ("Zip.mc.cfg", {"Bug": '"slot_shift"'}, "ContractHolds"),
             ("Zip.mc.cfg", {"Bug": '"index_dict"'}, "ContractHolds"),
+            ("Zip.mc3.cfg", {"Bug": '"fanout_dict"'}, "ContractHolds"),
             ("Zip.mc2.cfg", {"AsShipped_D12": "TRUE"}, "ContractHolds")],
     "FutureChain": [("FutureChain.d16.cfg", {}, "NoDeadlock"),
                     ("FutureChain.mc2.cfg", {"Bug": '"callbacks_under_lock"'}, "NoDeadlock"),
